@@ -39,6 +39,14 @@ class ExportConfig:
         else:
             return name
     
+    def _escape(self, value, chars:str='"', newline:str="\\n"):
+        """ Escape backslashes and the given special characters of a string value with backslashes
+        """
+        value = str(value).replace("\\", "\\\\")
+        for char in chars:
+            value = value.replace(char, "\\"+char)
+        return value.replace("\n", newline) if newline else value
+    
     def select(self, query:str=None, tags:list=None):
         """ Select nodes from an environment
         :param str query: Node query string
